@@ -183,6 +183,7 @@ package keeper
 //@   ensures @only_books_touched err == nil ==> forall k `enterprise.Key` :: {ent_store[k]} k != kLocked(a) && k != kTotalLocked ==> ent_store[k] == old(ent_store)[k]
 //@   ensures @spendable_not_increased err == nil && !bankVesting(a) ==> bankSpendable(bank_bal, a, dn) == bankSpendable(old(bank_bal), a, dn)
 //@   ensures @inv err == nil ==> ENT_BOOKS_WF(ent_store) && ENT_LEDGER(ent_store, bank_bal, esc) && BANK_OK(bank_bal)
+//@   ensures @cannot_fail_for_ordinary_accounts bankCanMint("enterprise") && !bankBlocked(a) ==> err == nil
 
 // Unlocking for fees: x = fee (if locked >= fee), else all that is locked (if liquid + locked covers the fee), else nothing.
 //@ func Keeper.UnlockCoinsForFees(ctx, feePayer, feesToPay) (err)
@@ -489,6 +490,7 @@ package keeper
 //@   ensures @authorised_signer_only err == nil ==> validBech32(msg.Signer) && isEntSignerIn(splitOn(entParams(s0).EntSigners, ","), bytesval(addrOf(msg.Signer)))
 //@   ensures @exactly_that_address err == nil ==> validBech32(msg.Address) && (msg.Action == 1 || msg.Action == 2) && wlHas(ent_store, a) == (msg.Action == 1) && wlHas(s0, a) == (msg.Action == 2)
 //@   ensures @frame err == nil ==> ent_store == s0[kWhitelist(a) := ent_store[kWhitelist(a)]]
+//@   ensures @invariants_kept [C14] ENT_ALL(s0) ==> ENT_ALL(ent_store)
 
 //@ func msgServer.UpdateParams(goCtx, req) (resp, err)
 //@   props C13 C16
@@ -496,6 +498,8 @@ package keeper
 //@   ensures @authority_only err == nil ==> req.Authority == k.Keeper.authority
 //@   ensures @rejected_changes_nothing err != nil ==> ent_store == old(ent_store)
 //@   ensures @valid_and_stored err == nil ==> ent_store == entParamsPut(old(ent_store), req.Params) && validDenom(req.Params.Denom) && req.Params.MinAccepts >= 1 && req.Params.DecisionTimeLimit >= 1 && len(splitOn(req.Params.EntSigners, ",")) >= req.Params.MinAccepts
+//@   ensures @invariants_kept_when_denom_unchanged [C14] err == nil && req.Params.Denom == entDenom(old(ent_store)) && ENT_ALL(old(ent_store)) && ENT_BOOKS_WF(old(ent_store)) ==> ENT_ALL(ent_store) && ENT_BOOKS_WF(ent_store)
+//@   ensures @invariants_kept_when_denom_changes [C14] err == nil && req.Params.Denom != entDenom(old(ent_store)) && ENT_ALL(old(ent_store)) && ENT_BOOKS_WF(old(ent_store)) ==> ENT_ALL(ent_store) && ENT_BOOKS_WF(ent_store)
 
 // ================================================================ block begin (L2): tally, then completion one block later
 
@@ -518,6 +522,8 @@ package keeper
 //@   ensures @tally_rule forall x uint64 :: {ent_store[kPO(x)]} {ent_store[kRaised(x)]} {ent_store[kAccepted(x)]} raisedHas(s0, x) ==> tallied(s0, ent_store, x, now, lim, ma, ns)
 //@   ensures @others_untouched forall x int :: {ent_store[kPO(x)]} {ent_store[kRaised(x)]} {ent_store[kAccepted(x)]} !raisedHas(s0, x) ==> ent_store[kPO(x)] == s0[kPO(x)] && ent_store[kRaised(x)] == s0[kRaised(x)] && ent_store[kAccepted(x)] == s0[kAccepted(x)]
 //@   ensures @frame forall k `enterprise.Key` :: {ent_store[k]} !isPOKey(k) && !isRaisedKey(k) && !isAcceptedKey(k) ==> ent_store[k] == s0[k]
+//@   ensures @books_untouched lockSum(ent_store) == lockSum(s0) && spentSum(ent_store) == spentSum(s0)
+//@   ensures @books_wf_kept derived ENT_BOOKS_WF(s0) ==> ENT_BOOKS_WF(ent_store)
 //@   ensures @inv_queues derived ENT_Q(ent_store)
 //@   ensures @inv_fresh ENT_FRESH(ent_store)
 //@   ensures @inv_completable derived ENT_PO_WF(ent_store) && entParamsSet(ent_store) && validDenom(entDenom(ent_store))
@@ -526,6 +532,7 @@ package keeper
 //@   loop 0: invariant forall j int :: {raisedPurchaseOrderIds[j]} rangeindex < j && j < len(raisedPurchaseOrderIds) ==> ent_store[kPO(raisedPurchaseOrderIds[j])] == s0[kPO(raisedPurchaseOrderIds[j])] && ent_store[kRaised(raisedPurchaseOrderIds[j])] == s0[kRaised(raisedPurchaseOrderIds[j])] && ent_store[kAccepted(raisedPurchaseOrderIds[j])] == s0[kAccepted(raisedPurchaseOrderIds[j])]
 //@   loop 0: invariant forall x int :: {ent_store[kPO(x)]} {ent_store[kRaised(x)]} {ent_store[kAccepted(x)]} !raisedHas(s0, x) ==> ent_store[kPO(x)] == s0[kPO(x)] && ent_store[kRaised(x)] == s0[kRaised(x)] && ent_store[kAccepted(x)] == s0[kAccepted(x)]
 //@   loop 0: invariant forall k `enterprise.Key` :: {ent_store[k]} !isPOKey(k) && !isRaisedKey(k) && !isAcceptedKey(k) ==> ent_store[k] == s0[k]
+//@   loop 0: invariant lockSum(ent_store) == lockSum(s0) && spentSum(ent_store) == spentSum(s0)
 //@   loop 1: invariant 0 - 1 <= rangeindex && rangeindex < len(po.Decisions) && po == poGet(s0, poId) && raisedHas(s0, poId)
 //@   loop 1: invariant numAccepts == decCount(arr(po.Decisions), rangeindex + 1, 2) && numRejects == decCount(arr(po.Decisions), rangeindex + 1, 3)
 
@@ -549,11 +556,17 @@ package keeper
 //@   ensures @nothing_queued_nothing_minted (forall x uint64 :: {s0[kAccepted(x)]} !acceptedHas(s0, x)) ==> ent_store == s0 && bank_supply == old(bank_supply) && bank_bal == old(bank_bal)
 //@   ensures @other_denoms_untouched forall d string :: {bank_supply[d]} d != dn ==> bank_supply[d] == old(bank_supply)[d]
 //@   ensures @supply_never_shrinks bank_supply[dn] >= old(bank_supply)[dn]
-//@   ensures @inv ENT_ALL(ent_store) && ENT_BOOKS_WF(ent_store) && BANK_OK(bank_bal) && ENT_LEDGER(ent_store, bank_bal, esc)
+//@   ensures @inv_books ENT_BOOKS_WF(ent_store) && BANK_OK(bank_bal) && ENT_LEDGER(ent_store, bank_bal, esc)
+//@   ensures @inv_queues derived ENT_Q(ent_store)
+//@   ensures @inv_fresh derived ENT_FRESH(ent_store)
+//@   ensures @inv_completable derived ENT_PO_WF(ent_store) && entParamsSet(ent_store) && validDenom(entDenom(ent_store))
+//@   ensures @queue_emptied derived forall x uint64 :: {ent_store[kAccepted(x)]} !acceptedHas(ent_store, x)
 //@   loop 0: invariant 0 - 1 <= rangeindex && rangeindex < len(acceptedPurchaseOrderIds)
-//@   loop 0: invariant forall x uint64 :: {ent_store[kPO(x)]} {ent_store[kAccepted(x)]} acceptedHas(s0, x) && rangeindex >= 0 && x <= acceptedPurchaseOrderIds[rangeindex] ==> completedFrom(s0, ent_store, x)
-//@   loop 0: invariant forall x uint64 :: {ent_store[kPO(x)]} {ent_store[kAccepted(x)]} !(acceptedHas(s0, x) && rangeindex >= 0 && x <= acceptedPurchaseOrderIds[rangeindex]) ==> ent_store[kPO(x)] == s0[kPO(x)] && ent_store[kAccepted(x)] == s0[kAccepted(x)]
+//@   loop 0: invariant forall j int :: {acceptedPurchaseOrderIds[j]} 0 <= j && j <= rangeindex ==> completedFrom(s0, ent_store, acceptedPurchaseOrderIds[j])
+//@   loop 0: invariant forall j int :: {acceptedPurchaseOrderIds[j]} rangeindex < j && j < len(acceptedPurchaseOrderIds) ==> ent_store[kPO(acceptedPurchaseOrderIds[j])] == s0[kPO(acceptedPurchaseOrderIds[j])] && ent_store[kAccepted(acceptedPurchaseOrderIds[j])] == s0[kAccepted(acceptedPurchaseOrderIds[j])]
+//@   loop 0: invariant forall x int :: {ent_store[kPO(x)]} {ent_store[kAccepted(x)]} !acceptedHas(s0, x) ==> ent_store[kPO(x)] == s0[kPO(x)] && ent_store[kAccepted(x)] == s0[kAccepted(x)]
 //@   loop 0: invariant forall k `enterprise.Key` :: {ent_store[k]} !isPOKey(k) && !isAcceptedKey(k) && !isLockedKey(k) && k != kTotalLocked ==> ent_store[k] == s0[k]
 //@   loop 0: invariant ENT_BOOKS_WF(ent_store) && BANK_OK(bank_bal) && ENT_LEDGER(ent_store, bank_bal, esc) && totalLockedAmt(ent_store) < P200 + (rangeindex + 1) * P128
 //@   loop 0: invariant forall d string :: {bank_supply[d]} d != dn ==> bank_supply[d] == old(bank_supply)[d]
 //@   loop 0: invariant bank_supply[dn] >= old(bank_supply)[dn] && (rangeindex < 0 ==> ent_store == s0 && bank_supply == old(bank_supply) && bank_bal == old(bank_bal))
+//@   loop 0: invariant len(acceptedPurchaseOrderIds) > 0 ==> acceptedHas(s0, acceptedPurchaseOrderIds[0])
